@@ -37,6 +37,15 @@ def _merge_vios(dst, src):
                 m["summary"] = e["summary"]
 
 
+def _key_of(hist):
+    s = _FACTORY()
+    try:
+        s.replay(hist)
+        return s.key()
+    finally:
+        s.close()
+
+
 def _expand(args):
     """Expand one state: returns (hist, [(op, key, changed, info)], violations, observations, stats)."""
     hist, want_ops = args
@@ -109,26 +118,18 @@ def explore(factory, max_depth, workers=None, max_states=None, seed_histories=()
     workers = workers or min(16, os.cpu_count() or 1)
     res = Result()
     rnd = random.Random(env.SEED)
-    s0 = factory()
-    try:
-        s0.replay([])
-        k0 = s0.key()
-    finally:
-        s0.close()
+    ctx = mp.get_context("fork")
+    # the pool is forked BEFORE anything runs in this process: replaying a history starts executor threads
+    # (asyncio.to_thread inside the server) and a fork after that would hand dead threads to the children
+    pool = ctx.Pool(max(workers, 1))
+    k0 = pool.apply(_key_of, ([],))
     seen = {k0: ()}
     level = [()]
     for h in seed_histories:
-        s = factory()
-        try:
-            s.replay(list(h))
-            k = s.key()
-        finally:
-            s.close()
+        k = pool.apply(_key_of, (list(h),))
         if k not in seen:
-            seen[k] = tuple(h)
-            level.append(tuple(h))
-    ctx = mp.get_context("fork")
-    pool = ctx.Pool(workers) if workers > 1 else None
+            seen[k] = tuple(tuple(o) for o in h)
+            level.append(tuple(tuple(o) for o in h))
     depth = 0
     try:
         while level:
@@ -138,10 +139,7 @@ def explore(factory, max_depth, workers=None, max_states=None, seed_histories=()
             # frontier order is seed-dependent; the explored set is not
             rnd.shuffle(level)
             jobs = [(list(h), None) for h in level]
-            if pool is not None:
-                results = pool.imap_unordered(_expand, jobs, chunksize=1)
-            else:
-                results = map(_expand, jobs)
+            results = pool.imap_unordered(_expand, jobs, chunksize=1)
             nxt = []
             collected = []
             for r in results:
